@@ -118,7 +118,7 @@ def eval_dir(d, rows, per):
     res = vflib.run_shards(LAYER, d, "cases_mysql_*.v")
     mism, verdicts, errors = {}, {}, []
     stats = {"modify_actions": 0, "modify_under_hypothesis": 0, "modify_on_autoinc_column": 0, "outside_known_classes": 0, "outside_and_holding": 0,
-             "actions_in_judged_migrations": 0, "actions_under_a_proved_sim_lemma": 0}
+             "actions_in_judged_migrations": 0, "actions_under_a_proved_sim_lemma": 0, "judged_migrations": 0, "migrations_fully_under_sim_lemmas": 0}
     for f, rc, o, dt in res:
         if rc != 0:
             errors.append({"shard": os.path.basename(f), "log": o[-1500:]})
@@ -150,9 +150,11 @@ def eval_dir(d, rows, per):
                 stats["outside_and_holding"] += b[1]
         if len(blocks) >= 5:
             c = vflib.parse_nat_list(blocks[4])
-            if len(c) == 2:
+            if len(c) == 4:
                 stats["actions_in_judged_migrations"] += c[0]
                 stats["actions_under_a_proved_sim_lemma"] += c[1]
+                stats["judged_migrations"] += c[2]
+                stats["migrations_fully_under_sim_lemmas"] += c[3]
     return mism, verdicts, errors, parse_errors, stats
 
 
